@@ -45,6 +45,8 @@ type World struct {
 
 	allFuncs    map[*ssa.Function]bool
 	phiVisiting map[*ssa.Phi]bool
+	// enumPaths records the branch taken at every If as "?T:<cond>" / "?F:<cond>"
+	branchMarkers bool
 
 	// statistics (measured)
 	NRootPkgs, NAllPkgs, NFuncs, NModFuncs int
